@@ -443,6 +443,12 @@ class SigmaRuleBase:
                 d[field] = l.copy()
 
         # the special cases
+        if self.license is not None:
+            d["license"] = str(self.license)
+        if self.related is not None and len(self.related.related) > 0:
+            d["related"] = [
+                {"id": str(item.id), "type": str(item.type)} for item in self.related.related
+            ]
         if len(self.tags) > 0:
             d["tags"] = [str(tag) for tag in self.tags]
         if self.date is not None:
